@@ -249,10 +249,28 @@ def scn_assignment(T, case):
     scn_get_mask(T, case)
 
 
+# ------------------------------------------------------------------------------------ the validated mask and sampler assignment are what the user configured
+def cases_validated_mask_and_assignment(tier):
+    for tr in (False, True):
+        for m1 in (True, False):
+            yield "variables/transform=%s/mask-given-once=%s" % (tr, m1), {"v": "variables", "tr": tr, "bad": False, "mask1": m1}
+    for ptypes in ([1, 1], [2, 1]):
+        yield "gradient/fix_perturbations/%s" % ptypes, {"v": "gradient-fix", "ptypes": ptypes, "tr": False}
+
+
+def scn_validated_mask_and_assignment(T, case):
+    """Which variables a sampler handles is derived from the VALIDATED mask and sampler assignment: a mask given once is broadcast (never dropped), and fixing the perturbations leaves the sampler assignment alone (C18's validator scenarios under this property's prefix)."""
+    from contracts import C18
+    from contracts.reuse import Renamed
+
+    C18.scn_validators(Renamed(T, "C18.", "C17.config."), case)
+
+
 SCENARIOS = [
     Scenario("sampler_contract", scn_sampler, cases_sampler, {"quick": 3, "thorough": 20}),
     Scenario("native_scipy_reference", scn_native, cases_native, {"quick": 3, "thorough": 30}),
     Scenario("sampler_variable_assignment", scn_assignment, cases_assignment, {"quick": 1, "thorough": 1}),
+    Scenario("validated_mask_and_assignment", scn_validated_mask_and_assignment, cases_validated_mask_and_assignment, {"quick": 2, "thorough": 10}),
 ]
 
 MANIFEST = {
